@@ -615,8 +615,8 @@ func genPyroCase(r *rand.Rand, gi int) (pc pyroCase, class string) {
 	seen := map[string]bool{}
 	tagVals := []string{"a", "b", "ab", "prod"}
 	if gi%5 == 2 {
-		// values a selector can only carry as escapes (the selector text is written with %q: \x01, \u200b, \a, \v)
-		tagVals = append(tagVals, "a\x01", "z\u200bw", "q\vr", "bell\a")
+		// values a selector can only carry as escapes (the selector text is written with %q: \x01, \x7f, \a, \v); ASCII only: the generators cut values by bytes
+		tagVals = append(tagVals, "a\x01", "z\x7fw", "q\vr", "bell\a")
 	}
 	mode := gi % 7
 	for i := 0; i < n; i++ {
